@@ -113,6 +113,12 @@ def cases(tier, rng):
     for r in NUM:
         for a in list(range(-9, 10)):
             yield Case("prog.tuple_to_string", [r, a, "7"], "format", kind=("fmt",))
+    # up to six accidentals the format keeps every one of them (beyond that the code folds them, outside the property):
+    # deep substitution chains produce such prefixes
+    for r in NUM:
+        for sf in ("", "dim7", "m7"):
+            for a in (-6, -5, -4, 4, 5, 6):
+                yield Case("prog.roundtrip", [pre(a) + r + sf], "roundtrip/many-accidentals", model=False, kind=("rt",))
 
 def shift_ok(base, got, acc):
     if not isinstance(got, list) or len(got) != len(base):
@@ -170,6 +176,11 @@ def oracle(c, obs):
         return None if any(ch == [a[0]] for ch in chs) else "numeral-to-chord is not the inverse of chord-to-numeral"
     if fn == "prog.roundtrip":
         return None if obs == a[0] else "numeral string does not survive parse followed by format"
+    if fn == "prog.tuple_to_string":
+        r, acc, sf = a
+        if abs(acc) <= 6:
+            return None if obs == pre(acc) + r + sf else "format does not write one accidental per unit of the prefix count"
+        return None
     if fn == "prog.parse_string":
         if kind[0] == "parse":
             _, n, acc, sf = kind
